@@ -76,9 +76,11 @@ impl Out {
     }
     pub fn event(&mut self, e: &str, input: &str, ph: &Val, o: &Outcome, t: &Ticks, claim: Value, force: bool) {
         let n = self.stats.calls;
-        if !force && (self.event_every == 0 || n % self.event_every != 0 || self.stats.events >= self.event_cap) { return; }
+        // accepted inputs are sampled ten times as densely as rejected ones (their values are what the spec can decide)
+        let every = if o.is_ok() { (self.event_every / 10).max(1) } else { self.event_every };
+        if !force && (self.event_every == 0 || n % every != 0 || self.stats.events >= self.event_cap) { return; }
         self.stats.events += 1;
-        let val = match o { Outcome::Ok(v) => v.abstract_json(), _ => Value::Null };
+        let val = match o { Outcome::Ok(v) => v.abstract_json(), _ => json!({"t": "none"}) };
         let line = json!({"ev": "Call", "e": e, "chars": abstract_chars(input), "len": input.chars().count(),
                           "ph": ph.abstract_json(), "st": o.status(), "val": val, "canon": o.canon(),
                           "ticks": t.total(), "claim": claim});
